@@ -633,7 +633,39 @@ func c17Worker(w *core.WorkerCtx) {
 			w.R.Sample(2, map[string]any{"sequential_history_prefix": o})
 		}
 	}
-	// concurrent histories: k goroutines from a barrier, few addresses, unique transactions
+	// concurrent histories: k goroutines from a barrier, few addresses, unique transactions. As in a running node, the
+	// other memory of the same package (the duplicate-suppression memory of the gossip and notary handlers) is busy
+	// with unrelated hashes and addresses meanwhile.
+	if flash, err := cache.NewFlash(); err == nil {
+		stopNoise := make(chan struct{})
+		var noise sync.WaitGroup
+		defer func() { close(stopNoise); noise.Wait(); flash.Close() }()
+		for g := 0; g < 3; g++ {
+			noise.Add(1)
+			go func(g int) {
+				defer noise.Done()
+				nr := rand.New(rand.NewSource(int64(g) + 77))
+				hb := make([]byte, 32)
+				for i := 0; ; i++ {
+					select {
+					case <-stopNoise:
+						return
+					default:
+					}
+					nr.Read(hb)
+					flash.HasHash(hb)
+					a := fmt.Sprintf("noise-address-%d-%d", g, i%50)
+					flash.HasAddress(a)
+					if i%3 == 0 {
+						flash.RemoveAddress(a)
+					}
+					if i%64 == 0 {
+						time.Sleep(50 * time.Microsecond)
+					}
+				}
+			}(g)
+		}
+	}
 	for hi := 0; hi < w.Pick(300, 3000); hi++ {
 		k := 2 + rng.Intn(7)
 		actors := []*ledger.Actor{ledger.NewActor("a"), ledger.NewActor("b")}
